@@ -91,7 +91,7 @@ class UB1:
         ts = set([0, 1, -1])
         for n in self.f.walk():
             v = n.get("cv")
-            if v is None and n["k"] in ("IntegerLiteral",):
+            if v is None and n["k"] in ("IntegerLiteral", "CharacterLiteral"):
                 v = n["v"]
             if v is not None and abs(v) < 2 ** 40:
                 ts.update((v - 1, v, v + 1))
@@ -478,9 +478,9 @@ class UB1:
                                                            "ConditionalOperator") and len(rs) == 2:
             cond = self.nodes.get(b.el[-1]) if b.el else None
             t = self.nodes.get(b.term)
-            if b.tk == "BinaryOperator" and t is not None:
-                cond = t["c"][0]
-            elif b.tk == "ForStmt" and t is not None and t["c"][1] is None:
+            # for && / || terminators the block's last element is the operand that was just evaluated
+            # (the terminator's own LHS may be a whole sub-disjunction)
+            if b.tk == "ForStmt" and t is not None and t["c"][1] is None:
                 cond = None
             for i, truth in ((0, True), (1, False)):
                 s = rs[i]
@@ -513,8 +513,32 @@ class UB1:
                 out.append((s[0], dict(st)))
         return out
 
+    def _loop_heads(self):
+        """Targets of back edges (DFS): the only places where widening is applied."""
+        cfg = self.cfg
+        heads = set()
+        color = {}
+        st = [(cfg.entry, iter(cfg.blocks[cfg.entry].rsucc))]
+        color[cfg.entry] = 1
+        while st:
+            b, it = st[-1]
+            adv = False
+            for s in it:
+                if color.get(s) == 1:
+                    heads.add(s)
+                elif s not in color:
+                    color[s] = 1
+                    st.append((s, iter(cfg.blocks[s].rsucc)))
+                    adv = True
+                    break
+            if not adv:
+                color[b] = 2
+                st.pop()
+        return heads
+
     def _run(self):
         cfg = self.cfg
+        heads = self._loop_heads()
         init = {}
         self.block_in = {cfg.entry: init}
         visits = {}
@@ -549,7 +573,7 @@ class UB1:
                     for k2 in old:
                         if k2 in ns:
                             j = join(old[k2], ns[k2])
-                            if v > 3 and j != old[k2]:
+                            if v > 3 and sid in heads and j != old[k2]:
                                 j = (self.widen_lo(old[k2][0], j[0]), self.widen_hi(old[k2][1], j[1]))
                                 tr = type_range(self.local_types.get(k2))
                                 if tr != (-INF, INF):
